@@ -31,6 +31,21 @@ CHECKS = {
         text="Grid (n log-grid x p x confidence x method) and generated floats; oracles: transcription of Agresti-Coull / Wald with the module's own z, monotonicity along grid lines, symmetry and conservativeness of probit vs the exact normal quantile. Exploration only.",
         note="Trusts statistics.NormalDist.inv_cdf and the stated float tolerances (1e-12 relative; propagated argument rounding for symmetry).",
         ref="4.18"),
+    "C09": dict(
+        technique="property-based testing: metamorphic relations between pairs of calls / pairs of programs (equalities for irrelevant changes, inequalities for relevant ones)",
+        text="Generated programs and inputs; each result is compared with its metamorphic twins (extra kwargs, renamed experiment, permuted splitters, permuted arguments, same-route condition changes, missing field, varied splitter values, varied salts). No reference hash is needed. Exploration only.",
+        note="Trusts the reference interpreter for 'same route'; inequality relations are probabilistic with false-alarm probability < 1e-9 per case.",
+        ref="4.9"),
+    "C10": dict(
+        technique="property-based testing: monotone-coupling and interval-intersection invariants over families of weight vectors evaluated on the same units",
+        text="Generated chains of weight vectors ordered by prefix shares (exact integer construction), each evaluated as its own program and as a branch of a routed program; oracle: no unit moves to a later group, and all observed (vector, group) pairs of a unit admit one common position. Exploration only.",
+        note="Trusts exact Fraction prefix shares with a 1e-12 widening; no hash scheme assumed.",
+        ref="4.10"),
+    "C15": dict(
+        technique="property-based testing: generated field values of every listed type / salts of any characters; totality and str()-equivalence oracle",
+        text="Generated str/int/float/bool/None values (all Unicode planes, NUL, 1e5-character strings, 4000-digit ints, nan/inf) as splitters and extras under ASCII and non-ASCII salts: a group must come back and v / str(v) must share it. Exploration only.",
+        note="Lone surrogates and ints beyond CPython's str() digit limit are excluded (stated in evidence).",
+        ref="4.15"),
 }
 
 NOT_YET = "check not built yet (work in progress; see DESIGN.md for the planned generator and oracle)"
